@@ -394,9 +394,13 @@ package chain
 //@   aftercall revalidatePool : preLen = len(m.txpool.txns)
 //@   aftercall revalidatePool : preLen2 = len(m.txpool.v2txns)
 //@   aftercall revalidatePool : idxRef = m.txpool.indices
+//@   ghostvar wcount int
+//@   aftercall revalidatePool : wcount = 0
+//@   aftercall TransactionWeight : wcount = wcount + 1
 //@   loop "range txns"
 //@     invariant m == old(m)
 //@     invariant nOld == preLen
+//@     invariant [weight-per-append] wcount == len(m.txpool.txns) - preLen
 //@     invariant nOld <= len(m.txpool.txns)
 //@     invariant len(m.txpool.v2txns) == preLen2
 //@     invariant m.txpool.indices == idxRef && idxRef != nil
@@ -421,9 +425,15 @@ package chain
 //@   aftercall revalidatePool : preLen = len(m.txpool.v2txns)
 //@   aftercall revalidatePool : preLen1 = len(m.txpool.txns)
 //@   aftercall revalidatePool : idxRef = m.txpool.indices
+//@   ghostvar wcount int
+//@   aftercall revalidatePool : wcount = 0
+//@   aftercall V2TransactionWeight : wcount = wcount + 1
 //@   loop "range txns" #2
 //@     invariant m == old(m)
 //@     invariant nOld == preLen
+// (the pool's weight counter moves once per transaction actually appended: a transaction of the
+// set that is already pooled is skipped and is not counted again)
+//@     invariant [weight-per-append] wcount == len(m.txpool.v2txns) - preLen
 //@     invariant nOld <= len(m.txpool.v2txns)
 //@     invariant len(m.txpool.txns) == preLen1
 //@     invariant m.txpool.indices == idxRef && idxRef != nil
